@@ -180,14 +180,16 @@ def record_files(sc, rng, serial, torn=False):
         if stop["n"] > stop["at"]:
             raise KeyboardInterrupt()
         return script(bench, k, inv)
-    session.run_session(sc["raw"], script1, default, start_key=start_key)
+    # files recorded under round-robin / random hold the runs interleaved (A B A B ...)
+    sched = rng.choice(["batch", "round-robin", "round-robin", "random"])
+    session.run_session(sc["raw"], script1, default, start_key=start_key, scheduler=sched, seed=rng.randint(0, 999))
     if torn:
         # leftovers of a crash: a torn measurement line, glued to the next session's first line
         for f in set(sc["files"].values()):
             if os.path.exists(f) and rng.random() < 0.7:
                 with open(f, "ab") as fh:
                     fh.write(rng.choice([b"2\t1\t5.0", b"3\t1\t7.000000\tms\ttotal\tBa\tE1\tS1\t\t1", b"# run_id: 9={\"cmdl"]))
-    ses = session.run_session(sc["raw"], script, default, start_key=start_key)
+    ses = session.run_session(sc["raw"], script, default, start_key=start_key, scheduler=sched, seed=rng.randint(0, 999))
     return ses
 
 
